@@ -1,6 +1,6 @@
 import BbRe.Lemmas.DirRead
 import BbRe.Lemmas.DirMisc
-import BbRe.Lemmas.DirPosix
+import BbRe.Lemmas.DirPosixBulk
 import BbRe.Lemmas.DirFuel
 /-!
 # C13 — the virtual directory tree behaves like a POSIX file hierarchy
@@ -212,26 +212,65 @@ theorem bulk_removal_complete (s : Store) (stack : List Nat) (extra : Nat) :
 
 /-! ## refines_posix -/
 
-/-- `refines_posix` for the namespace operations: the abstraction `abs : Store → FS`
-(forget the order of the entries, cookies, change counters and ghost link counts;
-a directory becomes a finite map from normalised names to (name, child)) commutes
-with mkdir, mknod, open/create, link, lookup / LookupChild, remove (rmdir / unlink /
-NFSv4 REMOVE / `Remove`) and rename, executed in any reachable store, including the
-lazy expansion of directories and all error cases: the reference hierarchy
+/-- `refines_posix`: the abstraction `abs : Store → FS` (forget the order of the
+entries, cookies, change counters and ghost link counts; a directory becomes a
+finite map from normalised names to (name, child)) commutes with *every*
+operation, executed in any reachable store: the reference hierarchy
 `Spec/Posix.lean` (textbook rules plus the documented deviations D1–D8) answers
-with the same status code and the same child, and ends in the abstraction of the
-resulting store.
-
-Partial: the full `refines_posix` of DESIGN.md also covers the bulk calls
-(CreateChildren, RemoveAll, RemoveAllChildren, CreateAndEnterPrepopulatedDirectory,
-FilterChildren) and the listings as sets; for those the tie to a reference
-hierarchy is the Go monitor of `harness/cmd/dir` only. -/
-theorem refines_posix_partial (P : Params) (ops : List Op) (op : Op) (sop : BbRe.Spec.Posix.Op)
-    (hv : validOp (run P init ops) op = true) (hcov : absOp op = some sop) :
-    BbRe.Spec.Posix.step P.normalize P.hidden (abs (run P init ops)) sop =
+with the same status code and the same child and ends in the abstraction of the
+resulting store.  This covers the kernel-facing calls (mkdir, mknod, open/create,
+link, lookup, remove, rename), LookupChild / Remove, the lazy expansion of
+directories with all its failure cases, and the bulk calls:
+CreateAndEnterPrepopulatedDirectory, CreateChildren (with and without overwrite,
+including the panic outcome), RemoveAll and RemoveAllChildren — whose recursive
+removal is specified declaratively (`destroy`: every directory reachable from the
+removed one becomes a tombstone), also for hierarchies made cyclic by D1.
+Listings, attribute reads, FilterChildren's traversal and InstallHooks are
+`access` / `nop` steps of the reference (they at most expand a directory); what
+they report is the subject of `listings_refine` and `filter_refines`. -/
+theorem refines_posix (P : Params) (ops : List Op) (op : Op) (hv : validOp (run P init ops) op = true) :
+    BbRe.Spec.Posix.step P.normalize P.hidden (abs (run P init ops)) (absOpAll op) =
       (abs (step P (run P init ops) op).1, (step P (run P init ops) op).2.status,
         (step P (run P init ops) op).2.child) :=
-  refines_step P (run P init ops) op sop (inv_reachable P ops) hv hcov
+  refines_step_all P (run P init ops) op (inv_reachable P ops) hv
+
+/-- `FilterChildren` changes nothing, makes at most `limit` callbacks, and every
+callback gets either a leaf entry `(owner, name, leaf)` of a directory at or below
+`d` or a still pending directory at or below `d` of the reference hierarchy (the
+removers handed to the callback are `Remove(name)` on the owner and
+`RemoveAllChildren(false)` on the pending directory — ordinary operations, covered
+by `refines_posix` whether they run inside the callback or later). -/
+theorem filter_refines (P : Params) (ops : List Op) (d limit : Nat) :
+    (filterChildren (run P init ops) d limit).1 = run P init ops ∧
+    (filterChildren (run P init ops) d limit).2.status = .ok ∧
+    (filterChildren (run P init ops) d limit).2.reports.length ≤ limit ∧
+    ∀ r ∈ (filterChildren (run P init ops) d limit).2.reports,
+      BbRe.Spec.Posix.filterItem (abs (run P init ops)) d r.cookie r.name r.child :=
+  BbRe.Lemmas.Dir.filter_refines P (run P init ops) d limit (inv_reachable P ops)
+
+/-- What `LookupAllChildren` / `ReadDir` list, in terms of the reference hierarchy:
+exactly the (name, child) pairs of the abstract directory that are not hidden leaves. -/
+theorem listings_refine (P : Params) (ops : List Op) (d : Nat) (op : Op)
+    (hop : op = .lookupAll d ∨ op = .readDirB d) (hd : d < (run P init ops).dirs.length)
+    (hok : (exec P (run P init ops) op).2.status = .ok) (name : Nat) (c : Child) :
+    (⟨0, name, c⟩ : Report) ∈ (exec P (run P init ops) op).2.reports ↔
+      ((∃ n, ((abs (exec P (run P init ops) op).1).dir d).entries n = some (name, c)) ∧
+        (c.isDir || !P.hidden name) = true) := by
+  have hv : validOp (run P init ops) op = true := by rcases hop with rfl | rfl <;> simpa [validOp] using hd
+  have hinv : Inv P (exec P (run P init ops) op).1 := by
+    have := step_ok (inv_reachable P ops) op
+    unfold step at this; rw [if_pos hv] at this; exact this.inv
+  have hx := (listing_calls_exact P (run P init ops) d op hop hok).1 ⟨0, name, c⟩
+  rw [hx, abs_dir]
+  constructor
+  · rintro ⟨e, he, hvis, heq⟩
+    have hn : name = e.name := by injection heq
+    have hc : c = e.child := by injection heq
+    subst hn hc
+    exact ⟨(listing_entries_abs (hinv.dirOK d) e.name e.child).mp ⟨e, he, rfl, rfl⟩, hvis⟩
+  · rintro ⟨hent, hvis⟩
+    obtain ⟨e, he, rfl, rfl⟩ := (listing_entries_abs (hinv.dirOK d) name c).mpr hent
+    exact ⟨e, he, hvis, rfl⟩
 
 /-! ## non-vacuity -/
 
@@ -268,9 +307,11 @@ example : ∀ p ∈ listing exP 0 (run exP init exOps) 0 exSegs, (⟨1, 1, 0, .d
   decide
 example : (allReports (listing exP 0 (run exP init exOps) 0 exSegs)).map (fun r => r.name) = [1, 4, 2] := by decide
 
--- `refines_posix_partial` has instances, e.g. a rename over an existing entry in the example store
+-- `refines_posix` has instances, e.g. a rename over an existing entry and a recursive removal in the example store
 example : validOp (run exP init exOps) (.rename 0 4 1 2) = true ∧
     (step exP (run exP init exOps) (.rename 0 4 1 2)).2.status = .ok := by decide
-example : absOp (.rename 0 4 1 2) = some (.rename 0 4 1 2) := rfl
+example : validOp (run exP init exOps) (.removeAll 0 1) = true ∧
+    (step exP (run exP init exOps) (.removeAll 0 1)).2.status = .ok ∧
+    ((step exP (run exP init exOps) (.removeAll 0 1)).1.dir 3).deleted = true := by decide
 
 end BbRe.Properties.C13
